@@ -92,6 +92,11 @@ func verifHarnessC06() {
 		}
 	}
 	verifAssert(db.Close() == nil, "C06.close-err")
+	if verifParam("spelling") == 1 {
+		// the adopting process spells the directory differently (trailing separator); so does the second restart
+		opts.DirPath += "/"
+		verifReach("other-spelling")
+	}
 	if verifParam("r_index") != 0 || verifParam("r_io") != 0 || verifParam("r_dfs_hi") != 0 || verifParam("r_shards") != 0 {
 		// the merge is adopted by a process with ANOTHER configuration (index type, shard count, back-end, a
 		// DataFileSize below the size of existing files), which keeps running the database afterwards
